@@ -37,6 +37,46 @@ def _trig_arg(e, fn):
     return atoms[0].args[0]
 
 
+def forward_kernel(rep, rid, tu, ex):
+    """Rules on the forward kernel shared by C06 (R06b) and C02 (R02a): per-image contribution of get_dm and the
+    mass factor / element addressing of get_dynmat_ij.  Returns (cos part, sin part, image loop variable)."""
+    i, j, k, n, ns = sp.symbols("i j k num_patom num_satom", integer=True)
+    fcf, multi_f, svec_f = sp.Function("fc"), sp.Function("multi"), sp.Function("svecs")
+    l_, m_ = 0, 1
+    fw = ex.function("get_dm", scalars={"i": i, "j": j, "k": k, "num_patom": n, "num_satom": ns})
+    gdm = tu.functions["get_dm"]
+    fline = tu.line(gdm)
+    e_re = sp.expand(fw.cell("dm", l_, m_, 0) - sp.Function("dm")(l_, m_, 0))
+    e_im = sp.expand(fw.cell("dm", l_, m_, 1) - sp.Function("dm")(l_, m_, 1))
+    fc_atoms = list(e_re.atoms(fcf))
+    if len(fc_atoms) != 1:
+        raise AnalysisError(f"{rid}: get_dm does not multiply one force-constant element by the phase factor")
+    fca = fc_atoms[0]
+    want_fc = sp.Function("p2s_map")(i) * ns * 9 + k * 9 + l_ * 3 + m_
+    rep.instance(rid, DYN, "get_dm", f"force-constant element {fca}", sp.simplify(fca.args[0] - want_fc) == 0, "the forward transform does not read fc[p2s(i)][k][l][m]", line=fline)
+    f_pair = k * n + i
+    Mf, adrs_f = multi_f(f_pair, 0), multi_f(f_pair, 1)
+    sre, lre = _sum_parts(sp.simplify(e_re / fca) * Mf)
+    sim, lim = _sum_parts(sp.simplify(e_im / fca) * Mf)
+    sre, sim = sp.simplify(sre), sp.simplify(sim)  # the 1/multi may sit inside the summand
+    lvf = lre[0][0] if lre else sp.Symbol("l")
+    want_f = 2 * sp.pi * sum(sp.Function("q")(mm) * svec_f(adrs_f + lvf, mm) for mm in range(3))
+    ok_f = sp.simplify(sre - sp.cos(want_f)) == 0 and sp.simplify(sim - sp.sin(want_f)) == 0
+    rep.instance(rid, DYN, "get_dm", "contribution = fc (cos, sin)(+2 pi q.svecs[adrs + l]) averaged over multi[k*num_patom+i][0] vectors", ok_f and len(lre) == 1 and sp.simplify(lre[0][2] - (Mf - 1)) == 0 and lre[0][1] == 0,
+                 f"the forward phase factor is not e^{{+2 pi i q.s}} averaged over the shortest vectors of (supercell atom k, primitive atom i): (cos, sin) parts ({sre}, {sim})", line=fline)
+    gij = tu.functions["get_dynmat_ij"]
+    ctx = celem.State(ex, "get_dynmat_ij", {"i": i, "j": j, "num_patom": n}, {}, 0)
+    ms = [x for x in cast.walk(gij) if x.get("kind") == "BinaryOperator" and x.get("opcode") == "=" and cast.text(cast.kids(x)[0]) == "mass_sqrt"]
+    if len(ms) != 1:
+        raise AnalysisError(f"{rid}: mass_sqrt assignment vanished in get_dynmat_ij")
+    mval = ctx.expr(cast.kids(ms[0])[1])
+    rep.instance(rid, DYN, "get_dynmat_ij", f"mass_sqrt = {mval}", sp.simplify(mval - sp.sqrt(sp.Function("mass")(i) * sp.Function("mass")(j))) == 0, "the forward mass factor is not sqrt(m_i m_j)", line=tu.line(ms[0]))
+    outs = [x for x in cast.walk(gij) if x.get("kind") == "BinaryOperator" and x.get("opcode") == "=" and cast.text(cast.kids(x)[0]).startswith("dynamical_matrix[")]
+    ok_div = len(outs) == 2 and all(cast.text(cast.kids(x)[1]).replace(" ", "") in (f"dm[k][l][{c}]/mass_sqrt" for c in (0, 1)) for x in outs)
+    rep.instance(rid, DYN, "get_dynmat_ij", "D_ij = dm / mass_sqrt", ok_div, "the forward transform does not divide the accumulated block by sqrt(m_i m_j)", line=tu.line(gij))
+    return sre, sim, lvf
+
+
 def run(rep: core.Report):
     rep.rule("R06a", "inverse kernel: generic element of fc is sum_k Re[D_k e^{i phi}] sqrt(m_i m_j') / N with phi = -2 pi q_k.s averaged over the multi shortest vectors of the pair (supercell atom j, primitive atom i); k runs over N = num_satom/num_patom points", 5)
     rep.rule("R06b", "forward kernel: the contribution of supercell atom k to D_ij is fc e^{+2 pi i q.s} averaged over the same shortest vectors, divided by sqrt(m_i m_j): phase, pair addressing and mass factor are the exact counterparts of the inverse kernel", 4)
@@ -93,45 +133,13 @@ def run(rep: core.Report):
     rep.instance("R06a", DYN, "transform_dynmat_to_fc_ij", "fc += Re[D_k e^{i phi}] with phi = -2 pi q_k . svecs[adrs + l]  (cos part, sin part)", ok_phase,
                  f"the inverse transform multiplies D_k by (cos, sin) = ({s0}, {-s1}), not by e^{{-2 pi i q_k.s}}: real and imaginary parts or the phase sign are wrong", line=line)
     # ---- forward ----------------------------------------------------------
-    fw = ex.function("get_dm", scalars={"i": i, "j": j, "k": k, "num_patom": n, "num_satom": ns})
-    gdm = tu.functions["get_dm"]
-    fline = tu.line(gdm)
-    e_re = sp.expand(fw.cell("dm", l_, m_, 0) - sp.Function("dm")(l_, m_, 0))
-    e_im = sp.expand(fw.cell("dm", l_, m_, 1) - sp.Function("dm")(l_, m_, 1))
-    fc_atoms = list(e_re.atoms(fcf))
-    if len(fc_atoms) != 1:
-        raise AnalysisError("R06b: get_dm does not multiply one force-constant element by the phase factor")
-    fca = fc_atoms[0]
-    want_fc = sp.Function("p2s_map")(i) * ns * 9 + k * 9 + l_ * 3 + m_
-    rep.instance("R06b", DYN, "get_dm", f"force-constant element {fca}", sp.simplify(fca.args[0] - want_fc) == 0, "the forward transform does not read fc[p2s(i)][k][l][m]", line=fline)
-    f_pair = k * n + i
-    Mf, adrs_f = multi_f(f_pair, 0), multi_f(f_pair, 1)
-    sre, lre = _sum_parts(sp.simplify(e_re / fca) * Mf)
-    sim, lim = _sum_parts(sp.simplify(e_im / fca) * Mf)
-    # the 1/multi may sit inside the summand
-    sre, sim = sp.simplify(sre), sp.simplify(sim)
-    lvf = lre[0][0] if lre else sp.Symbol("l")
-    want_f = 2 * sp.pi * sum(sp.Function("q")(mm) * svec_f(adrs_f + lvf, mm) for mm in range(3))
-    ok_f = sp.simplify(sre - sp.cos(want_f)) == 0 and sp.simplify(sim - sp.sin(want_f)) == 0
-    rep.instance("R06b", DYN, "get_dm", "contribution = fc (cos, sin)(+2 pi q.svecs[adrs + l]) averaged over multi[k*num_patom+i][0] vectors", ok_f and len(lre) == 1 and sp.simplify(lre[0][2] - (Mf - 1)) == 0,
-                 f"the forward phase factor is not e^{{+2 pi i q.s}} averaged over the shortest vectors of (supercell atom k, primitive atom i): (cos, sin) parts ({sre}, {sim})", line=fline)
+    sre, sim, lvf = forward_kernel(rep, "R06b", tu, ex)
     # counterpart: the inverse factor at (q_k; supercell atom j) is the complex conjugate of the forward factor at q = q_k, k := j
     subs = {sp.Function("q")(mm): comm_f(kv, mm) for mm in range(3)}
     fre = sre.subs(k, j).subs(lvf, lv).subs(subs)  # atom index first: the inverse loop variable is also called k
     fim = sim.subs(k, j).subs(lvf, lv).subs(subs)
     rep.instance("R06b", DYN, "get_dm / transform_dynmat_to_fc_ij", "inverse phase factor == conjugate of the forward phase factor at q_k for the same pair and image", sp.simplify(fre - s0) == 0 and sp.simplify(fim - s1) == 0,
                  "forward and inverse transforms do not use conjugate phases over the same shortest vectors: the round trip is not the identity", line=line)
-    # mass factor of the forward kernel (tail of get_dynmat_ij)
-    gij = tu.functions["get_dynmat_ij"]
-    ctx = celem.State(ex, "get_dynmat_ij", {"i": i, "j": j, "num_patom": n}, {}, 0)
-    ms = [x for x in cast.walk(gij) if x.get("kind") == "BinaryOperator" and x.get("opcode") == "=" and cast.text(cast.kids(x)[0]) == "mass_sqrt"]
-    if len(ms) != 1:
-        raise AnalysisError("R06b: mass_sqrt assignment vanished in get_dynmat_ij")
-    mval = ctx.expr(cast.kids(ms[0])[1])
-    rep.instance("R06b", DYN, "get_dynmat_ij", f"mass_sqrt = {mval}", sp.simplify(mval - sp.sqrt(sp.Function("mass")(i) * sp.Function("mass")(j))) == 0, "the forward mass factor is not sqrt(m_i m_j)", line=tu.line(ms[0]))
-    outs = [x for x in cast.walk(gij) if x.get("kind") == "BinaryOperator" and x.get("opcode") == "=" and cast.text(cast.kids(x)[0]).startswith("dynamical_matrix[")]
-    ok_div = len(outs) == 2 and all(cast.text(cast.kids(x)[1]).replace(" ", "") in (f"dm[k][l][{c}]/mass_sqrt" for c in (0, 1)) for x in outs)
-    rep.instance("R06b", DYN, "get_dynmat_ij", "D_ij = dm / mass_sqrt (inverse multiplies by sqrt(m_i m_j'))", ok_div, "the forward transform does not divide by sqrt(m_i m_j) while the inverse multiplies by it", line=tu.line(gij))
     # ---- Python -----------------------------------------------------------
     sq = core.find_def(D2F, "DynmatToForceConstants._sum_q")
     tr = symalg.OpenPyTranslator(where="_sum_q")
